@@ -154,8 +154,12 @@ theorem packRaw_sections (i : Input) :
 /-- every MP family that has something to send is visited by the loop (`famOrder` lists the set) -/
 def FamCover (i : Input) : Prop := ∀ x ∈ mpAnns i ++ mpWds i, x.fam ∈ i.famOrder
 
+instance (i : Input) : Decidable (FamCover i) := by unfold FamCover; exact inferInstance
+
 /-- every NLRI has at least one byte -/
 def PosSizes (i : Input) : Prop := Pos i.anns ∧ Pos i.wds
+
+instance (i : Input) : Decidable (PosSizes i) := by unfold PosSizes; exact inferInstance
 
 theorem pos_filter {l : List Nlri} (h : Pos l) (p : Nlri → Bool) : Pos (l.filter p) :=
   fun x hx => h x (List.mem_filter.1 hx).1
